@@ -58,6 +58,7 @@ func stdUniverse() *universe {
 			{name: "c.a", kind: 'c'}, {name: "c.b", kind: 'c'},
 			{name: "m.err", kind: 'm', getErr: reserr.CodeNotFound}, {name: "m.r2e", kind: 'm'},
 			{name: "q.m", kind: 'm', query: true}, {name: "q.c", kind: 'c', query: true},
+			{name: "q.d", kind: 'm', query: true, defQuery: "q=n1"}, // only profile query asks for it
 			{name: "cid.{cid}.m", kind: 'm'}, {name: "m.pq", kind: 'm'},
 			{name: long, kind: 'm'},
 			// leaves used by the reference burst of profile throttle (never picked at random)
@@ -69,7 +70,7 @@ func stdUniverse() *universe {
 			"m.a": "k1=p1,k2=r:m.b,k3=s:m.c", "m.b": "k1=p2,k2=r:m.c", "m.c": "k1=p3,k2=r:m.a,k3=d7",
 			"m.self": "k1=r:m.self,k2=p1", "c.a": "p1,r:m.b,r:m.b,p2", "c.b": "r:c.a,r:m.c,s:m.a",
 			"m.r2e": "k1=r:m.err,k2=p4", "q.m?q=n1": "k1=p1", "q.m?q=n2": "k1=p2,k2=r:m.b", "q.c?q=n1": "p1,p2",
-			"q.c?q=n2": "p3", "cid.{cid}.m": "k1=p9", long: "k1=p1", "m.pq": "k1=p1,k2=r:m.b",
+			"q.c?q=n2": "p3", "q.d?q=n1": "k1=p4,k2=r:m.b", "q.d?q=n2": "k1=p5", "cid.{cid}.m": "k1=p9", long: "k1=p1", "m.pq": "k1=p1,k2=r:m.b",
 			"c.n": "p1", "m.n1": "k1=r:m.l1,k2=p1", "m.n2": "k1=r:m.l2,k2=r:m.l3",
 			"m.l1": "k1=p1", "m.l2": "k1=p2", "m.l3": "k1=p3", "m.l4": "k1=p4", "m.l5": "k1=p5", "m.l6": "k1=p6", "m.l7": "k1=p7",
 		},
@@ -119,7 +120,7 @@ func profiles() map[string]profile {
 	ps["access"] = p
 
 	p = baseProfile("query") // query resources, normalisation, query events
-	p.rids = []string{"q.m?q=a", "q.m?q=b", "q.m?q=c", "q.m?q=n1", "q.c?q=a", "q.c?q=c", "q.m", "m.pq?q=a", "m.pq"}
+	p.rids = []string{"q.m?q=a", "q.m?q=b", "q.m?q=c", "q.m?q=n1", "q.c?q=a", "q.c?q=c", "q.m", "m.pq?q=a", "m.pq", "q.d", "q.d?q=a", "q.d?q=c", "q.d"}
 	p.eventKinds = []string{"query", "query", "query", "custom", "change"}
 	p.reqKinds = []string{"subscribe", "subscribe", "subscribe", "unsubscribe", "get"}
 	p.wSilent, p.wReset = 10, 5
@@ -273,7 +274,25 @@ func (g *gen) clientRequest() {
 				}
 			}
 			sort.Strings(aliases)
+			if d := g.w.truth.defFor(rid[:i]); d != nil && d.defQuery == nq {
+				aliases = append(aliases, "") // the resource id without query
+			}
 			rid = rid[:i+1] + aliases[c.idx%len(aliases)]
+			if strings.HasSuffix(rid, "?") {
+				rid = rid[:i]
+			}
+		}
+	} else if d := g.w.truth.defFor(rid); d != nil && d.defQuery != "" {
+		var aliases []string
+		for raw, n := range g.u.norm {
+			if n == d.defQuery {
+				aliases = append(aliases, raw)
+			}
+		}
+		sort.Strings(aliases)
+		aliases = append(aliases, "")
+		if a := aliases[c.idx%len(aliases)]; a != "" {
+			rid = rid + "?" + a
 		}
 	}
 	if strings.HasPrefix(rid, "m.pq") {
@@ -421,6 +440,11 @@ func (g *gen) answerOne(r *mockReq, drain bool) {
 				rid = "m.*"
 			}
 			l, d := "resource:"+rid, []byte(fmt.Sprintf(`{"resource":{"rid":%q}}`, rid))
+			if strings.HasSuffix(r.subject, ".new") && g.r.chance(1, 3) {
+				// RES-service v1.1 form of the answer to a new call: the rid as the result
+				d = []byte(fmt.Sprintf(`{"result":{"rid":%q}}`, rid))
+				g.kinds["answer:new-legacy"]++
+			}
 			if !drain {
 				l, d = g.withMeta(r, l, d)
 			}
@@ -665,6 +689,17 @@ func (g *gen) event() {
 			return
 		}
 		ev, pl := g.mutate(tr, cl)
+		if ev == "change" && g.r.chance(1, 5) {
+			// RES-service v1.0 form of a model change event: the values object itself (still
+			// accepted by the gateway, which logs a deprecation warning once per service)
+			var d struct {
+				Values json.RawMessage `json:"values"`
+			}
+			if json.Unmarshal([]byte(pl), &d) == nil && len(d.Values) > 2 {
+				pl = string(d.Values)
+				g.kinds["event:change-legacy"]++
+			}
+		}
 		w.publish("event."+name+"."+ev, pl)
 	case "custom":
 		tr := w.truth.get(name, "")
@@ -900,7 +935,23 @@ func (g *gen) reset() {
 }
 
 func (g *gen) tokenReset() {
-	b, _ := json.Marshal(map[string]interface{}{"tids": []string{pick(g.r, []string{"T1", "T2", "T3"})}, "subject": "auth.svc.renew"})
+	// one to three token ids; now and then an empty or null entry, which addresses nobody (a
+	// connection without a token id is not "the connection with token id \"\"")
+	tids := []interface{}{pick(g.r, []string{"T1", "T2", "T3"})}
+	for g.r.chance(1, 3) && len(tids) < 3 {
+		switch g.r.intn(4) {
+		case 0:
+			tids = append(tids, "")
+		case 1:
+			tids = append(tids, nil)
+		default:
+			tids = append(tids, pick(g.r, []string{"T1", "T2", "T3"}))
+		}
+	}
+	if g.r.chance(1, 2) {
+		tids[0], tids[len(tids)-1] = tids[len(tids)-1], tids[0]
+	}
+	b, _ := json.Marshal(map[string]interface{}{"tids": tids, "subject": "auth.svc.renew"})
 	g.kinds["tokenReset"]++
 	g.w.publish("system.tokenReset", string(b))
 }
